@@ -32,7 +32,7 @@ fn row_shape(r: &Row, verdict: Option<&'static str>, jar: &JarIndex, applying: &
 struct MapOutcome { applied: Option<Maps> }
 
 /// The mapping-side judgement shared by both workloads. `names_all` = new names by the construction over the whole table.
-fn map_side(rng: &mut Rng, rep: &mut Report, rows: &[Row], text: &str, m: &Maps, shapes: &BTreeMap<String, TargetShape>, names_all: &BTreeMap<String, String>, light: bool) -> MapOutcome {
+fn map_side(rng: &mut Rng, rep: &mut Report, rows: &[Row], text: &str, m: &Maps, shapes: &BTreeMap<String, TargetShape>, names_all: &BTreeMap<String, String>) -> MapOutcome {
     let detail = || json!({"table": text, "mappings": m.render()});
     let mut out = MapOutcome { applied: None };
     let nests = match mapside::read_table::<Src>(text) {
@@ -50,15 +50,19 @@ fn map_side(rng: &mut Rng, rep: &mut Report, rows: &[Row], text: &str, m: &Maps,
     // ---- nest translation
     let exp = mapside::ref_translate(rows, m);
     let outside = exp.iter().any(|e| matches!(e.encl, Exp::Outside(_)) || matches!(e.inner, Exp::Outside(_)));
+    // the real code follows class -> enclosing class links recursively, in the source table and in the translated one
+    let links_src: Vec<(String, String)> = rows.iter().map(|r| (r.class.clone(), r.encl.clone())).collect();
+    let links_dst: Vec<(String, String)> = exp.iter().filter_map(|e| match &e.encl { Exp::Exact(x) => Some((e.class.clone(), x.clone())), _ => None }).collect();
+    if !acyclic(&links_src) { rep.count("harness.cyclic_source_table"); return out; }
+    if !acyclic(&links_dst) { rep.count("domain.translated_table_cyclic"); return out; }
+    if outside { rep.count("domain.translation_outside_pinned_rules"); for e in &exp { rep.count(&format!("translate.inner_name.{}", e.inner_case)); } return out; }
     for e in &exp { rep.count(&format!("translate.inner_name.{}", e.inner_case)); }
     for r in rows { if let Some(s) = shapes.get(&r.class) { rep.seen("translate.target_shapes_of_listed_classes", &format!("{s:?}")); } else { rep.count("translate.listed_class_without_mapping_entry"); } }
-    if outside { rep.count("domain.translation_outside_pinned_rules"); }
     match mapside::call_remap(&nests, &q) {
         Err(p) => { if !outside { rep.violation(format!("C14 panic {}", p.site()), json!({"in": "remap_nests", "panic": p.message, "input": detail()})); } }
         Ok(Err(e)) => { if !outside { rep.violation(format!("C14 nest translation: refuses a table inside the domain: {}", mapside::err_template(&e)), json!({"error": e, "input": detail()})); } }
         Ok(Ok(t)) => { if !outside { let full = mapside::judge_translation(rep, &exp, &t, &detail); rep.add("translate.nests_judged_completely", full as u64); rep.count("translate.tables_judged"); for e in &exp { if e.method.is_some() { rep.count("translate.enclosing_methods_judged"); } } } }
     }
-    if light { return out; }
 
     // ---- apply
     let Some(want) = mapside::ref_apply(m, names_all) else { rep.count("domain.apply_would_collide"); return out; };
@@ -178,9 +182,9 @@ fn jar_case(rng: &mut Rng, rep: &mut Report) {
 
     // ---- the mappings over the same classes; agreement
     let want_methods: Vec<(String, (String, String))> = rows.iter().filter_map(|r| r.method.clone().map(|m| (r.encl.clone(), m))).collect();
-    let (mut m, tshapes) = gen_mappings(rng, &universe, &present, &want_methods);
+    let (mut m, tshapes) = gen_mappings(rng, &universe, &present, &want_methods, false);
     for (k, name) in present.iter().enumerate() { if let Some(c) = m.classes.get_mut(name) { c.comment = Some(format!("id{k}")); } }
-    let mo = map_side(rng, rep, &rows, &text, &m, &tshapes, &names_all, false);
+    let mo = map_side(rng, rep, &rows, &text, &m, &tshapes, &names_all);
     if let Some(applied) = &mo.applied {
         let mut map_names: BTreeMap<usize, String> = BTreeMap::new();
         for c in applied.classes.values() { if let Some(k) = c.comment.as_deref().and_then(|s| s.strip_prefix("id")).and_then(|s| s.parse::<usize>().ok()) { if let Some(n0) = &c.names[0] { map_names.insert(k, n0.clone()); } } }
@@ -202,9 +206,10 @@ fn jar_case(rng: &mut Rng, rep: &mut Report) {
     if rep.want_sample() && renames > 0 { rep.sample(|| json!({"kind": "jar case", "table": text, "jar classes": present, "expected new names": exp.names, "created": exp.must_create, "mappings": m.render()})); }
 }
 
-fn maps_case(rng: &mut Rng, rep: &mut Report, light: bool) {
+/// `small` = tiny scenarios (the slice the interpreter runs)
+fn maps_case(rng: &mut Rng, rep: &mut Report, small: bool) {
     let mut names = Names::new();
-    let n = rng.usize_in(2, 9);
+    let n = if small { rng.usize_in(2, 4) } else { rng.usize_in(2, 9) };
     let present = gen_present(rng, &mut names, n);
     let mut methods: BTreeMap<String, Vec<(String, String)>> = BTreeMap::new();
     for c in &present {
@@ -212,22 +217,22 @@ fn maps_case(rng: &mut Rng, rep: &mut Report, light: bool) {
         for k in 0..rng.below(3) { let d = match rng.below(3) { 0 => "()V".to_string(), 1 => format!("(L{};)V", rng.pick(&present)), _ => format!("(I)[L{};", rng.pick(&present)) }; v.push((format!("m{k}"), d)); }
         methods.insert(c.clone(), v);
     }
-    let rows = gen_rows(rng, &mut names, &present, &methods, &RowCfg { max_rows: 7, all_apply: false, absent_rows: true });
+    let rows = gen_rows(rng, &mut names, &present, &methods, &RowCfg { max_rows: if small { 3 } else { 7 }, all_apply: false, absent_rows: true });
     let universe = universe_of(&present, &rows);
     let all_rows: Vec<&Row> = rows.iter().collect();
     let names_all = new_names(&all_rows);
     if !injective(&names_all, &universe) { rep.count("domain.skipped_rename_not_injective"); return; }
     let text = table_text(&rows, rng.bool());
     let want_methods: Vec<(String, (String, String))> = rows.iter().filter_map(|r| r.method.clone().map(|m| (r.encl.clone(), m))).collect();
-    let (m, tshapes) = gen_mappings(rng, &universe, &[], &want_methods);
+    let (m, tshapes) = gen_mappings(rng, &universe, &[], &want_methods, small);
     rep.eval();
     let mut fp: Vec<String> = rows.iter().map(|r| format!("{}:d{}:{:?}:{}", r.kind().name(), chain_depth(r, &all_rows), tshapes.get(&r.class), r.method.is_some())).collect();
     fp.sort();
     for r in &rows { rep.count(&format!("maps.rows.chain_depth.{}", chain_depth(r, &all_rows).min(5))); }
     let listed_with_entry = rows.iter().filter(|r| m.classes.contains_key(&r.class)).count();
-    let mo = map_side(rng, rep, &rows, &text, &m, &tshapes, &names_all, light);
+    let mo = map_side(rng, rep, &rows, &text, &m, &tshapes, &names_all);
     let touched = m.classes.values().any(|c| c.fields.keys().chain(c.methods.keys()).any(|(_, d)| maps::desc::classes_of(d).iter().any(|x| names_all.get(x).is_some_and(|nn| nn != x))));
-    if listed_with_entry > 0 && (touched || light) { rep.nontrivial(hash_parts(&[format!("maps n={n}"), fp.join(",")])); }
+    if listed_with_entry > 0 && touched { rep.nontrivial(hash_parts(&[format!("maps n={n}"), fp.join(",")])); }
     if rep.want_sample() && mo.applied.is_some() && listed_with_entry > 0 && rep.samples.len() < 2 { rep.sample(|| json!({"kind": "mapping case", "table": text, "mappings": m.render(), "expected source names": names_all})); }
 }
 
@@ -277,7 +282,7 @@ fn self_checks() -> Result<(), String> {
             if probe.violations.keys().any(|k| k.starts_with("C14 jar class fact .methods[].desc")) { fact_ok = true; }
         }
         // (3) mapping side: a reference that forgets one rename must be reported; (4) a wrong inner name too
-        let (m, _) = gen_mappings(&mut rng, &universe, &present, &[]);
+        let (m, _) = gen_mappings(&mut rng, &universe, &present, &[], false);
         let Ok(q) = mapside::to_quill(&m, &mut Ins::Sorted) else { continue };
         let Ok(Ok(nests)) = mapside::read_table::<Src>(&text) else { continue };
         if let Ok(Ok(a)) = mapside::call_apply(q.clone(), &nests) {
@@ -304,16 +309,17 @@ fn self_checks() -> Result<(), String> {
 
 // ------------------------------------------------------------------------------------------------ Miri
 
-/// `c14 --miri-slice <seed> <operations> [max seconds]`: mapping-side operations only, single-threaded, no files.
-fn miri_slice(seed: u64, ops: usize, max_s: u64) -> i32 {
+/// `c14 --miri-slice <seed> <operations> <max seconds> <shard>`: mapping-side operations only (table reading, nest
+/// translation, apply, undo, with the same judgement as the native run), single-threaded, no files.
+fn miri_slice(seed: u64, ops: usize, max_s: u64, shard: u64) -> i32 {
     let mut rep = Report::new();
     let deadline = std::time::Instant::now() + std::time::Duration::from_secs(max_s);
     let mut i = 0u64;
     let count = |rep: &Report| rep.get("table.read_and_compared") + rep.get("translate.tables_judged") + rep.get("apply.judged") + rep.get("undo.judged");
     while (count(&rep) as usize) < ops && i < 10_000 && std::time::Instant::now() < deadline {
-        let mut rng = Rng::new(rng::case_seed(seed, "C14/miri", i));
+        let mut rng = Rng::new(rng::case_seed(seed, "C14/miri", shard * 1_000_000 + i));
         rep.cur = ("miri".into(), i);
-        maps_case(&mut rng, &mut rep, false);
+        maps_case(&mut rng, &mut rep, true);
         i += 1;
     }
     for v in rep.violations.values() { println!("SLICE-OBSERVATION {} ({}x)", v.signature, v.count); }
@@ -326,30 +332,60 @@ fn miri_target_dir() -> String {
     std::env::current_exe().ok().and_then(|p| p.parent().and_then(|d| d.parent()).map(|t| t.join("miri").to_string_lossy().into_owned())).unwrap_or_else(|| "/tmp/c14-miri-target".into())
 }
 
-fn run_miri(ctx: &Ctx, ops: usize) -> (String, Option<String>) {
+const MIRI_DIAG: [&str; 7] = ["Undefined Behavior", "error: unsupported operation", "error: memory leaked", "error: abnormal termination", "error: deadlock", "error: resource exhaustion", "error: the evaluated program"];
+
+/// Builds the slice once, then runs it sharded over processes. Returns (status for the evidence, diagnostics, observations).
+fn run_miri(ctx: &Ctx, ops_per_shard: usize) -> (Value, Vec<String>, Vec<String>) {
     let manifest = format!("{}/../../Cargo.toml", env!("CARGO_MANIFEST_DIR"));
-    if !std::path::Path::new(&manifest).exists() { return (format!("skipped: {manifest} not found"), None); }
+    if !std::path::Path::new(&manifest).exists() { return (json!({"status": format!("skipped: {manifest} not found")}), vec![], vec![]); }
     let t0 = std::time::Instant::now();
-    let out = std::process::Command::new("timeout").args(["-k", "10", "285", "cargo", "+nightly", "miri", "run", "--offline", "--manifest-path", &manifest, "-p", "c14", "--", "--miri-slice", &ctx.seed.to_string(), &ops.to_string(), "150"])
-        .env("MIRIFLAGS", "-Zmiri-disable-isolation").env("CARGO_NET_OFFLINE", "true").env("CARGO_TARGET_DIR", miri_target_dir()).env_remove("RUSTFLAGS").output();
-    let out = match out { Ok(o) => o, Err(e) => return (format!("skipped: cannot start cargo miri: {e}"), None) };
-    let so = String::from_utf8_lossy(&out.stdout); let se = String::from_utf8_lossy(&out.stderr);
-    let secs = t0.elapsed().as_secs();
-    if let Some(l) = se.lines().find(|l| l.contains("Undefined Behavior")) { return (format!("UB diagnostic after {secs}s"), Some(l.trim().to_string())); }
-    match out.status.code() {
-        Some(124) | Some(137) => (format!("skipped: time-out after {secs}s"), None),
-        Some(0) => (format!("ran in {secs}s: {}", so.lines().find(|l| l.starts_with("MIRI-SLICE")).unwrap_or("no summary line")), None),
-        c => (format!("skipped: miri unavailable or failed (exit {c:?}) after {secs}s: {}", se.lines().filter(|l| l.starts_with("error")).take(2).collect::<Vec<_>>().join(" | ")), None),
+    let cmd = |secs: &str, args: &[String]| {
+        let mut c = std::process::Command::new("timeout");
+        c.args(["-k", "10", secs, "cargo", "+nightly", "miri", "run", "--offline", "--manifest-path", &manifest, "-p", "c14", "--", "--miri-slice"]).args(args)
+            .env("MIRIFLAGS", "-Zmiri-disable-isolation").env("CARGO_NET_OFFLINE", "true").env("CARGO_TARGET_DIR", miri_target_dir()).env("RUST_BACKTRACE", "0").env_remove("RUSTFLAGS")
+            .stdin(std::process::Stdio::null());
+        c
+    };
+    // step 1: build (zero operations)
+    let b = cmd("240", &[ctx.seed.to_string(), "0".into(), "1".into(), "0".into()]).output();
+    let b = match b { Ok(o) => o, Err(e) => return (json!({"status": format!("skipped: cannot start cargo miri: {e}")}), vec![], vec![]) };
+    if b.status.code() != Some(0) {
+        let se = String::from_utf8_lossy(&b.stderr);
+        return (json!({"status": format!("skipped: miri unavailable or build failed (exit {:?}) after {}s: {}", b.status.code(), t0.elapsed().as_secs(), se.lines().filter(|l| l.starts_with("error")).take(2).collect::<Vec<_>>().join(" | "))}), vec![], vec![]);
     }
+    let build_s = t0.elapsed().as_secs();
+    // step 2: shards in parallel
+    let shards = ctx.threads.clamp(1, 8);
+    let children: Vec<_> = (0..shards).filter_map(|k| cmd("200", &[ctx.seed.to_string(), ops_per_shard.to_string(), "150".into(), k.to_string()]).stdout(std::process::Stdio::piped()).stderr(std::process::Stdio::piped()).spawn().ok()).collect();
+    let (mut done, mut ops, mut cases) = (0u64, 0u64, 0u64);
+    let (mut diags, mut obs, mut failed): (Vec<String>, Vec<String>, Vec<String>) = (vec![], vec![], vec![]);
+    for (k, c) in children.into_iter().enumerate() {
+        let Ok(o) = c.wait_with_output() else { failed.push(format!("shard {k}: wait failed")); continue };
+        let so = String::from_utf8_lossy(&o.stdout); let se = String::from_utf8_lossy(&o.stderr);
+        for l in se.lines() { if MIRI_DIAG.iter().any(|d| l.contains(d)) { diags.push(l.trim().to_string()); } }
+        for l in so.lines() { if let Some(x) = l.strip_prefix("SLICE-OBSERVATION ") { obs.push(x.to_string()); } }
+        match (o.status.code(), so.lines().find(|l| l.starts_with("MIRI-SLICE done"))) {
+            (Some(0), Some(line)) => {
+                done += 1;
+                for part in line.split_whitespace() { if let Some(v) = part.strip_prefix("operations=") { ops += v.parse::<u64>().unwrap_or(0); } if let Some(v) = part.strip_prefix("cases=") { cases += v.parse::<u64>().unwrap_or(0); } }
+            }
+            (code, _) => failed.push(format!("shard {k}: exit {code:?}: {}", se.lines().rev().take(3).collect::<Vec<_>>().join(" | "))),
+        }
+    }
+    diags.sort(); diags.dedup(); obs.sort(); obs.dedup();
+    let status = if !diags.is_empty() { "diagnostic" } else if done as usize == shards { "completed" } else if done > 0 { "partly completed (rest skipped)" } else { "skipped" };
+    (json!({"status": status, "shards": shards, "shards_completed": done, "cases_interpreted": cases, "mapping_side_operations_interpreted": ops, "build_s": build_s, "wall_s": t0.elapsed().as_secs(),
+        "diagnostics": diags, "not_completed": failed, "flags": "-Zmiri-disable-isolation", "command": "cargo +nightly miri run --offline -p c14 -- --miri-slice <seed> <operations> 150 <shard>"}), diags, obs)
 }
 
 fn main() {
     let args: Vec<String> = std::env::args().collect();
     if let Some(p) = args.iter().position(|a| a == "--miri-slice") {
         let seed = args.get(p + 1).and_then(|s| s.parse().ok()).unwrap_or(1);
-        let n = args.get(p + 2).and_then(|s| s.parse().ok()).unwrap_or(300);
+        let n = args.get(p + 2).and_then(|s| s.parse().ok()).unwrap_or(60);
         let max_s = args.get(p + 3).and_then(|s| s.parse().ok()).unwrap_or(150);
-        std::process::exit(miri_slice(seed, n, max_s));
+        let shard = args.get(p + 4).and_then(|s| s.parse().ok()).unwrap_or(0);
+        std::process::exit(miri_slice(seed, n, max_s, shard));
     }
     let mut ctx = Ctx::from_args("C14", 35, 420);
     let replay = load_replay(&mut ctx);
@@ -391,12 +427,16 @@ fn main() {
         meta.oblige("nest translation: enclosing methods judged; listed classes without mapping entry", rep.get("translate.enclosing_methods_judged") > 100 && rep.get("translate.listed_class_without_mapping_entry") > 10);
         meta.oblige("access column in decimal, hexadecimal and binary", ["decimal", "hexadecimal", "binary"].iter().all(|k| rep.get(&format!("table.access_notation.{k}")) > 0));
         meta.oblige("mapping-side chains of depth 1..4", (1..=4).all(|d| rep.get(&format!("maps.rows.chain_depth.{d}")) > 0));
-        meta.oblige("fewer than 10% of the generated cases fall outside the domain", (rep.get("domain.skipped_rename_not_injective") + rep.get("harness.emit_skipped") + rep.get("harness.to_quill_failed")) * 10 < rep.evaluations.max(1));
+        meta.oblige("fewer than 10% of the generated cases fall outside the domain", (rep.get("domain.skipped_rename_not_injective") + rep.get("domain.translated_table_cyclic") + rep.get("domain.translation_outside_pinned_rules") + rep.get("domain.apply_would_collide") + rep.get("harness.emit_skipped") + rep.get("harness.to_quill_failed")) * 10 < rep.evaluations.max(1) && rep.get("harness.cyclic_source_table") == 0);
         meta.oblige("the invariant walker ran on results", rep.get("invariant.walks") > 1000);
         if ctx.tier == Tier::Thorough {
-            let (status, ub) = run_miri(&ctx, 300);
-            if let Some(line) = ub { rep.cur = ("miri".into(), 0); rep.violation(format!("miri: {line}"), json!({"how": "cargo +nightly miri run --offline -p c14 -- --miri-slice <seed> 300", "seed": ctx.seed as i64})); }
-            meta.extra.insert("miri_slice".into(), json!(status));
+            let (status, diags, obs) = run_miri(&ctx, 60);
+            rep.cur = ("miri".into(), 0);
+            for d in diags { rep.violation(format!("miri: {d}"), json!({"how": "cargo +nightly miri run --offline -p c14 -- --miri-slice <seed> 60 150 <shard>", "seed": ctx.seed as i64})); }
+            // functional mismatches seen under the interpreter carry the signatures of the native run
+            for o in obs { let sig = o.rsplit_once(" (").map(|(a, _)| a.to_string()).unwrap_or(o); rep.violation(sig, json!({"seen_in": "miri slice (the native workloads carry the inputs)"})); }
+            rep.add("miri.mapping_side_operations_interpreted", status["mapping_side_operations_interpreted"].as_u64().unwrap_or(0));
+            meta.extra.insert("miri_slice".into(), status);
         } else {
             meta.extra.insert("miri_slice".into(), json!("not run in the quick tier"));
         }
